@@ -249,7 +249,11 @@ def dump(in_db, f, **options):
                 # raw 0 has to be written too when it is not the physical 0 the reader assumes for a missing attribute
                 if signal.phys2raw(None) != 0 or (signal.initial_value != 0 and "GenSigStartValue" not in signal.attributes):
                     if db.signal_defines["GenSigStartValue"].defaultValue is None:
-                        signal.add_attribute("GenSigStartValue", signal.phys2raw(None))
+                        start_value = signal.phys2raw(None)
+                        if isinstance(start_value, decimal.Decimal):
+                            # float signals: the exponent of the quotient depends on how the operands were written
+                            start_value = "{:f}".format(start_value.normalize())
+                        signal.add_attribute("GenSigStartValue", start_value)
                         
             name = normalized_names[signal]
             if compatibility:
